@@ -4,7 +4,7 @@ import DuneVerif.Model.C14
     map     IT PAT LAY CTOR EXTS [STRIDES]
     conv    IT PAT LAY KIND EXTS [STRIDES]
     mdspan  IT PAT LAY ACC  EXTS [STRIDES]
-    mdarray IT PAT LAY CTOR ACC EXTS
+    mdarray IT PAT LAY CTOR ACC EXTS          (CTOR incl. arrext|arrval|arrcont: std::array container)
     span    N EXT : op;op;…
 -/
 open DV DV.C14
@@ -24,7 +24,21 @@ def parseLayout : String → Option Layout
   | "stride" => some .stride
   | _ => none
 
-def validIT (s : String) : Bool := s == "int" || s == "size" || s == "short"
+/-- the extents types instantiated by the harness (`IT:PAT`); other types are answered `bad-op` on both sides -/
+def typeTable : List String :=
+  ["int:-", "size:-",
+   "int:d", "int:0", "int:1", "int:3", "size:d", "short:d", "short:2",
+   "int:dd", "int:d3", "int:2d", "int:23", "int:0d", "size:dd", "size:40", "short:d2", "short:14",
+   "int:ddd", "int:2d3", "int:d3d", "int:dd0", "size:ddd", "size:31d", "short:ddd",
+   "int:dddd", "int:2dd3", "int:d1d2", "int:2312", "size:dddd", "size:3d2d", "short:dddd", "short:ddd4"]
+
+/-- the types for which mdspan/mdarray are instantiated as well -/
+def fullTable : List String :=
+  ["int:-", "int:d", "int:3", "short:d", "int:d3", "int:23", "size:dd", "int:2d3", "short:ddd",
+   "int:dddd", "size:dddd", "short:dddd"]
+
+def maxExt : Nat := 8
+def maxStride : Nat := 1000
 
 def buildExtents (p : Pattern) (ctor : String) (full : List Nat) : Option Extents :=
   if !compatible p full then none else
@@ -52,16 +66,18 @@ def parseMapping (ws : List String) (ctorOf : String → String) :
     Option (Pattern × Layout × String × Extents × Mapping) :=
   match ws with
   | it :: pat :: lay :: x :: exts :: rest =>
-    if !validIT it then none else
+    if !typeTable.contains (it ++ ":" ++ pat) then none else
     match parsePattern pat, parseLayout lay, parseNatList? exts with
     | some p, some l, some full =>
+      if full.any (· > maxExt) then none else
       match buildExtents p (ctorOf x) full with
       | none => none
       | some e =>
         match l, rest with
         | .stride, [ss] =>
           match parseNatList? ss with
-          | some strides => if strides.length = p.length then some (p, l, x, e, mkMapping l e strides) else none
+          | some strides =>
+            if strides.length = p.length && !strides.any (· > maxStride) then some (p, l, x, e, mkMapping l e strides) else none
           | none => none
         | .stride, _ => none
         | _, [] => some (p, l, x, e, mkMapping l e [])
@@ -90,11 +106,14 @@ def handleConv (ws : List String) : String :=
   | some (p, l, kind, e, m) =>
     match kind with
     | "stride" =>
+      -- rank 0: layout_stride::mapping has no constructor from another mapping type
+      if p.length = 0 && l ≠ .stride then "bad-op" else
       let mid := m.toStride
       match mid.convertTo l with
       | some fin => "mid=" ++ mapBlock mid ++ " fin=" ++ mapBlock fin
       | none => "bad-op"
     | "dyn" =>
+      if p.length = 0 && l = .stride then "bad-op" else
       let pd : Pattern := p.map fun _ => none
       match Extents.convert pd e with
       | none => "bad-op"
@@ -127,10 +146,15 @@ def handleConv (ws : List String) : String :=
 def validAcc (acc : String) (rank : Nat) : Bool :=
   acc == "call" || acc == "arr" || acc == "span" || (acc == "br" && rank == 1)
 
+def isFull (ws : List String) : Bool :=
+  match ws with
+  | it :: pat :: _ => fullTable.contains (it ++ ":" ++ pat)
+  | _ => false
+
 def handleMdspan (ws : List String) : String :=
   match parseMapping ws (fun _ => "afull") with
   | some (p, _, acc, _, m) =>
-    if !validAcc acc p.length then "bad-op" else
+    if !validAcc acc p.length || !isFull ws then "bad-op" else
     let a : Md := ⟨m, iotaInt m.requiredSpan fun k => (k : Int)⟩
     let b := writeAll a
     "size=" ++ toString (mdSize m.rank m.ext) ++ " empty=" ++ showB (mdSize m.rank m.ext == 0) ++
@@ -142,16 +166,20 @@ def handleMdarray (ws : List String) : String :=
   | it :: pat :: lay :: ctor :: acc :: exts :: [] =>
     match parseMapping [it, pat, lay, ctor, exts] (fun _ => "afull") with
     | some (p, l, _, _, m) =>
-      if l == .stride || !validAcc acc p.length then "bad-op" else
+      if l == .stride || !validAcc acc p.length || !isFull ws then "bad-op" else
       let rss := m.requiredSpan
       let init : Option Md :=
         match ctor with
         | "ext" | "map" | "alloc" => some (Md.new m 0)
         | "variadic" => if p.length = 0 then none else some (Md.new m 0)
         | "extval" | "mapval" | "allocval" => some (Md.new m 7)
+        -- std::array container: only for fully static extents of rank > 0
+        | "arrext" => if p.length = 0 || rankDynamic p ≠ 0 then none else some (Md.new m 0)
+        | "arrval" => if p.length = 0 || rankDynamic p ≠ 0 then none else some (Md.new m 7)
+        | "arrcont" => if p.length = 0 || rankDynamic p ≠ 0 then none else some ⟨m, iotaInt rss fun k => 10 + (k : Int)⟩
         | "cont" | "contmv" | "copy" | "conv" => some ⟨m, iotaInt rss fun k => 10 + (k : Int)⟩
         | "span" | "spanal" => some (Md.fromMdspan m ⟨m, iotaInt rss fun k => 3 * (k : Int) + 1⟩)
-        | "strided" => some (Md.fromMdspan m ⟨m.toStride, iotaInt rss fun k => 3 * (k : Int) + 1⟩)
+        | "strided" => if p.length = 0 then none else some (Md.fromMdspan m ⟨m.toStride, iotaInt rss fun k => 3 * (k : Int) + 1⟩)
         | _ => none
       match init with
       | none => "bad-op"
